@@ -67,8 +67,18 @@ class C03:
         self.mod = ctx.index.module(GEO)
         m, maxnode = ctx.index.need_assign(GEO, "MAX_FREQUENCY")
         if not (isinstance(maxnode, ast.Constant) and isinstance(maxnode.value, (int, float))):
-            raise AnalysisError("MAX_FREQUENCY is not a numeric literal", rule="R03.2", site=FILE)
-        self.MAX = maxnode.value
+            # a constant expression (5 * 10**6, float("inf"), 5e6 written through a name) has the value it evaluates to
+            val = None
+            try:
+                from sa.sym import TRUE, Evaluator
+                val = peval(Evaluator(ctx.index, m, maxnode, f"{GEO}:MAX_FREQUENCY", None).ev(maxnode, TRUE), {})
+            except Exception:  # noqa: BLE001
+                pass
+            if val is None or val[0] != "const" or isinstance(val[1], bool) or not isinstance(val[1], (int, float)):
+                raise AnalysisError("MAX_FREQUENCY is not a numeric constant", rule="R03.2", site=FILE)
+            self.MAX = val[1]
+        else:
+            self.MAX = maxnode.value
         self.MAXT = ("global", f"{GEO}:MAX_FREQUENCY", "assign")
 
     # ------------------------------------------------------------------ R03.1
@@ -661,7 +671,9 @@ class C03:
                     return
                 for o in weak_orderings(["b0", "b2"]):
                     for o2 in weak_orderings(["b1", "b3"]):
-                        env = {"b0": float(o["b0"]), "b2": float(o["b2"]), "b1": 10.0 + o2["b1"], "b3": 10.0 + o2["b3"]}
+                        # values that no rounding / quantisation step leaves alone: "a permutation of its inputs" is exact
+                        env = {"b0": 0.12345678912345 + o["b0"] * 0.70710678118655, "b2": 0.12345678912345 + o["b2"] * 0.70710678118655,
+                               "b1": 10.98765432198765 + o2["b1"] * 1.41421356237310, "b3": 10.98765432198765 + o2["b3"] * 1.41421356237310}
                         out = [f(dict(env)) for f in fns]
                         n += 1
                         if not (out[0] <= out[2] and out[1] <= out[3] and sorted([out[0], out[2]]) == sorted([env["b0"], env["b2"]])
@@ -788,6 +800,20 @@ class C03:
         else:
             ctx.bad("R03.4", FILE, "geometry_validate", "if geom_type not in GEOMETRY_MAPPING: raise",
                     "an unknown type tag is not rejected before the table lookup (KeyError instead of a validation error)", s.node.lineno)
+
+
+def run_validation_subset(ctx: Ctx):
+    """What every computation on geometries rests on: a constructed geometry holds the coordinates it was given (only BoundingBox
+    and LineString are re-ordered, nothing is rounded, dropped or added), and exactly the valid coordinates are accepted."""
+    with ctx.delegated("C03/"):
+        ctx.rule("R03.1", "type table: union, ALL_GEOMETRY_TYPES, Literal tags, GEOMETRY_MAPPING", 13)
+        ctx.rule("R03.2", "reject formula of each class == complement of the specified acceptance set (grid incl. all endpoints)", 35)
+        ctx.rule("R03.3", "normalising validators produce normal form on every ordering", 2)
+        ctx.rule("R03.5", "validator discipline: after-mode on coordinates, returns value or raises convertible error", 12)
+        ctx.rule("R03.6", "every (time, frequency) point is forced to have exactly two values", 5)
+        c = C03(ctx)
+        for k in c.check_table():
+            c.check_class(k)
 
 
 def run(ctx: Ctx):
